@@ -663,10 +663,13 @@ pub fn judge_stage(stage_no: usize, stage: &Stage, res: &StageResult, expect: &E
         if let Some(pos) = res.trace.iter().position(|e| matches!(e, Ev::Read { ret: 0, .. })) {
             for e in &res.trace[pos + 1..] {
                 if let Ev::Other(what) = e {
-                    if what.starts_with("getenv ") {
-                        continue; // reading a variable is not an effect; dependence on it is tested by re-running with it set
+                    // reading a clock, randomness, a variable or a file is not an effect (dependence on them
+                    // is what the ambient faults test); writing files, sockets, processes, the environment,
+                    // the working directory or signal handlers is
+                    if !crate::e1::is_process_effect(what) {
+                        continue;
                     }
-                    v.push(viol("C17", "evaluation-touches-ambient-state", stage_no, op.clone(), "after stdin is complete only write(1) / write(2)".into(), what.clone(), needs));
+                    v.push(viol("C17", "evaluation-has-a-side-effect-on-the-process", stage_no, op.clone(), "after stdin is complete: output on fd 1 / fd 2 and nothing that outlasts or leaves the process".into(), what.clone(), needs));
                     break;
                 }
             }
